@@ -10,7 +10,7 @@
    strings for scripts / datums / redeemer data, arbitrary identity classes, arbitrary cost-model tables,
    arbitrary histories of builder operations. *)
 From CSL Require Import Base.Prelude Cbor.Head Cbor.Item ScriptData.LangViews ScriptData.ScriptData
-  ScriptData.ScriptDataSpec ScriptData.ScriptDataProofs.
+  ScriptData.ScriptDataSpec ScriptData.ScriptDataProofs ScriptData.SlicesProofs ScriptData.Blake2bProofs.
 Local Open Scope N_scope.
 
 (* ---- the stand-alone helper -------------------------------------------------------------------------------- *)
@@ -163,6 +163,33 @@ Theorem C09_wf_invariant : forall (H : bytes -> bytes) (ops : list op), wf_build
 Proof. intros H ops. apply wf_run, wf_new. Qed.
 Print Assumptions C09_wf_invariant.
 
+
+(* ---- from structured fields to the bytes of the emitted transaction ----------------------------------------- *)
+
+(* slicing the serialised witness set with the generic CBOR delimiter (what the judge of the correspondence run does)
+   returns the structured fields, provided every emitted field is one well-formed CBOR item *)
+Theorem C09_slices_sound : forall w : witness_set,
+  Forall (fun kv => item_wf (snd kv) = true) (ws_fields w) ->
+  exists sl, map_slices (ws_bytes w) = Ok sl /\
+             field_slice 5 sl = assoc_field 5 (ws_fields w) /\
+             field_slice 4 sl = assoc_field 4 (ws_fields w).
+Proof. exact ws_slices_sound. Qed.
+Print Assumptions C09_slices_sound.
+
+(* C09_same_bytes_history over the BYTES of the emitted witness set *)
+Theorem C09_same_bytes_history_bytes : forall (H : bytes -> bytes) (ops : list op) (cm : costmdls) (before : list op) (t : tx),
+  last_calc_rev (rev ops) = Some (cm, before) ->
+  let b0 := fst (run H builder_new (rev before)) in
+  let b := fst (run H builder_new ops) in
+  is_ok (calc_script_data_hash H b0 cm) = true ->
+  has_script_items b0 || is_none (b_script_data_hash b0) = true ->
+  build_tx H b = Ok t ->
+  Forall (fun kv => item_wf (snd kv) = true) (ws_fields (tx_witness_set t)) ->
+  exists sl, map_slices (ws_bytes (tx_witness_set t)) = Ok sl /\
+    tx_script_data_hash t = ledger_script_integrity H (field_slice 5 sl) (field_slice 4 sl) (langs_used b) cm.
+Proof. exact same_bytes_history_bytes. Qed.
+Print Assumptions C09_same_bytes_history_bytes.
+
 (* ---- non-vacuity ------------------------------------------------------------------------------------------- *)
 Definition ex_datum_a : pdata := mk_pdata 1 [24; 42].
 Definition ex_datum_b : pdata := mk_pdata 2 [159; 1; 2; 255].
@@ -205,3 +232,10 @@ Check (eq_refl : language_views_encoding ex_cm =
   [163; 1; 130; 0; 26; 0; 1; 17; 112; 2; 129; 5; 65; 0; 71; 159; 1; 33; 25; 1; 44; 255]).
 Check (eq_refl : map enc_view_key canonical_langs = [[1]; [2]; [65; 0]]).
 Check (eq_refl : enc_int (-18446744073709551616)%Z = [59; 255; 255; 255; 255; 255; 255; 255; 255]).
+(* the well-formedness premise of the byte-level statements holds for the example transaction *)
+Example C09_bytes_premise_satisfiable :
+  match build_tx idH (fst (run idH builder_new ex_ops)) with
+  | Ok t => forallb (fun kv => item_wf (snd kv)) (ws_fields (tx_witness_set t)) = true
+  | _ => False
+  end.
+Proof. vm_compute. reflexivity. Qed.
